@@ -615,9 +615,26 @@ class Inliner:
                 if f2 is h or (q2 not in self.known and q2.startswith(q + ".")):
                     continue
                 for n in ast.walk(f2.node):
-                    if (isinstance(n, ast.Attribute) and n.attr == name) or (isinstance(n, ast.Name) and n.id == name and isinstance(n.ctx, ast.Load)):
-                        used = True
-                        break
+                    if isinstance(n, ast.Attribute) and n.attr == name:
+                        # a method / property of the helper's class hierarchy, or `module.helper` for a module-level helper
+                        if h.cls is not None and (f2.cls is None or not (set(self.prog.mro(f2.cls)) & set(self.prog.mro(h.cls)) or h.cls in self.prog.all_subclasses(f2.cls) or f2.cls in self.prog.all_subclasses(h.cls))):
+                            recv_t = self.prog.infer_type(f2, n.value) if hasattr(self.prog, "infer_type") else set()
+                            if recv_t and not any(h.cls in self.prog.mro(t_) for t_ in recv_t):
+                                continue
+                            used = True
+                            break
+                        if h.cls is not None:
+                            used = True
+                            break
+                        if isinstance(n.value, ast.Name) and n.value.id in f2.module.imports and f2.module.imports[n.value.id][0] == h.module.name:
+                            used = True
+                            break
+                        continue
+                    if isinstance(n, ast.Name) and n.id == name and isinstance(n.ctx, ast.Load) and h.cls is None:
+                        # the same module, or a module that imports the helper
+                        if f2.module is h.module or f2.module.imports.get(name, (None, None))[0] == h.module.name:
+                            used = True
+                            break
                 if used:
                     break
             if not used and self.expanded.get(q):
